@@ -340,6 +340,7 @@ func init() {
 		Subs: []*checks.Sub{
 			{Name: "orders", Shards: func(string) int { return 16 }, Run: runOrders, Replay: replayOrders},
 			{Name: "purity", Run: runPurity},
+			{Name: "unchanged-package", Shards: func(string) int { return 8 }, Run: runSystem, Replay: replaySystem},
 		},
 	})
 }
